@@ -340,7 +340,7 @@ func randomChild(g *lib.Rng) childCase {
 }
 
 func (r *runner) childRandom(rng *lib.Rng) {
-	n, perFile := 1500, 100
+	n, perFile := 1500, 60
 	if r.cfg.Thorough() {
 		n, perFile = 60000, 1000
 	}
